@@ -101,6 +101,9 @@ def run_unit(unit, progress):
         elif i % 16 == 12:
             prog = gen.overlap_program(random.Random(cs))
             inc("overlap_programs")
+        elif i % 16 == 9:
+            prog = gen.sameval_program(random.Random(cs))
+            inc("programs_overriding_with_the_value_already_in_force")
         elif i % 16 == 4:
             # one cached error object raised by several children and caught again and again by one running body
             prog = gen.recatch_program(random.Random(cs), leafs=("none", "const", "item", "item"))
